@@ -19,7 +19,9 @@ import (
 	"encoding/binary"
 	"errors"
 	"fmt"
+	"regexp"
 	"sort"
+	"strings"
 	"testing"
 	"time"
 
@@ -188,6 +190,42 @@ func (a *c20App) absentOps(store, key string) *tmcrypto.ProofOps {
 	}}
 }
 
+const c20SpecialStore = "spc"
+
+var c20SpecialKeys = []string{"a+b", "a b", "a%2Fb", "a/b", "a%20b", "a%2Bb", "a%2bb", "x:6162", "ab", "x:zz", "x:", "x", "%41", "A", "%", "%zz",
+	"\xc3\xa9", "%C3%A9", "\x00\xff\x80", "q?#&=:;,@$", "~-_.!*'()", "/", "//lead", "trail/", " sp", "sp ", "+", " ", "\xe6\x97\xa5\xe6\x9c\xac", "a&b=c", "a:b"}
+
+// store names: siblings under '+' / ' ', under the "x:" hex prefix (7374 = "st"), under %-escapes, and raw bytes
+var c20SiblingStores = []string{"s+t", "s t", "x:7374", "st", "s%20t", "p/q%", "\xfc\xfe:#?"}
+
+// (asked, substituted) pairs: the substituted key is what a faulty encode / decode step turns the asked one into
+var c20SiblingKeys = [][2]string{{"a+b", "a b"}, {"a b", "a+b"}, {"a%2Fb", "a/b"}, {"a/b", "a%2Fb"}, {"a%20b", "a b"}, {"a b", "a%20b"},
+	{"a%2Bb", "a+b"}, {"a%2bb", "a%2Bb"}, {"x:6162", "ab"}, {"ab", "x:6162"}, {"%41", "A"}, {"\xc3\xa9", "%C3%A9"}, {"%C3%A9", "\xc3\xa9"},
+	{"+", " "}, {" ", "+"}, {" sp", "sp "}, {"x:", "x"}, {"a:b", "a&b=c"}}
+var c20SiblingStorePairs = [][2]string{{"s+t", "s t"}, {"s t", "s+t"}, {"x:7374", "st"}, {"st", "x:7374"}, {"s%20t", "s t"}, {"s t", "s%20t"}}
+
+var c20StoreRE = regexp.MustCompile(`\/store\/(.+)\/key`)
+
+// key-path functions: 0 = DefaultMerkleKeyPathFn (URL, URL), 1 = store URL + key hex, 2 = both hex
+func c20KPFn(mode int) KeyPathFunc {
+	if mode == 0 {
+		return DefaultMerkleKeyPathFn()
+	}
+	return func(path string, key []byte) (merkle.KeyPath, error) {
+		m := c20StoreRE.FindStringSubmatch(path)
+		if len(m) != 2 {
+			return nil, fmt.Errorf("can't find store name in %s", path)
+		}
+		kp := merkle.KeyPath{}
+		if mode == 2 {
+			kp = kp.AppendKey([]byte(m[1]), merkle.KeyEncodingHex)
+		} else {
+			kp = kp.AppendKey([]byte(m[1]), merkle.KeyEncodingURL)
+		}
+		return kp.AppendKey(key, merkle.KeyEncodingHex), nil
+	}
+}
+
 func c20Events(r *vg.Rand) []abci.Event {
 	var evs []abci.Event
 	for i := r.Intn(3); i > 0; i-- {
@@ -216,6 +254,16 @@ func c20NewChain(idx int, r *vg.Rand) *c20Chain {
 		app.stores["acc"]["carol"] = r.Bytes(1)
 		app.stores["bank"]["fee"] = []byte{7}
 		app.stores["bank"]["mint"] = r.Bytes(5)
+	}
+	// stores and keys over the characters key-path encodings treat specially, incl. pairs that differ
+	// only by an encoding step ("a+b" / "a b", "a%2Fb" / "a/b", "x:6162" / "ab", ...), every value distinct
+	val := func(i, j int) []byte { return append([]byte{byte(i), byte(j)}, r.Bytes(2)...) }
+	app.stores[c20SpecialStore] = map[string][]byte{}
+	for j, k := range c20SpecialKeys {
+		app.stores[c20SpecialStore][k] = val(0, j)
+	}
+	for i, st := range c20SiblingStores {
+		app.stores[st] = map[string][]byte{"k": val(1+i, 0), "a+b": val(1+i, 1), "a b": val(1+i, 2)}
 	}
 	c.apps = append(c.apps, app.clone())
 	params := *types.DefaultConsensusParams()
@@ -527,9 +575,16 @@ func c20Call(lc *c20LC, f func() error) (out c20Run) {
 }
 
 func c20Client(srv *c20Server, lc *c20LC, withKP bool) *Client {
-	var opts []Option
 	if withKP {
-		opts = append(opts, KeyPathFn(DefaultMerkleKeyPathFn()))
+		return c20ClientKP(srv, lc, DefaultMerkleKeyPathFn())
+	}
+	return c20ClientKP(srv, lc, nil)
+}
+
+func c20ClientKP(srv *c20Server, lc *c20LC, fn KeyPathFunc) *Client {
+	var opts []Option
+	if fn != nil {
+		opts = append(opts, KeyPathFn(fn))
 	}
 	cl := NewClient(srv, lc, opts...)
 	cl.RegisterOpDecoder(c20AbsentType, c20AbsentDecoder)
@@ -1300,7 +1355,7 @@ func c20QueryCases(t *testing.T, cs *vg.Cases, c *c20Chain, r *vg.Rand) {
 		rr := r.Fork(uint64(4000 + k))
 		h := 1 + rr.Int63n(c.n-1) // header h+1 exists
 		a := c.apps[h]
-		store := a.storeNames()[rr.Intn(len(a.stores))]
+		store := []string{"acc", "bank"}[rr.Intn(2)] // the stores with plain names and keys; c20SpecialQueryCases has the others
 		keys := c20SortedKeys(a.stores[store])
 		key := keys[rr.Intn(len(keys))]
 		path := "/store/" + store + "/key"
@@ -1375,47 +1430,238 @@ func c20QueryCases(t *testing.T, cs *vg.Cases, c *c20Chain, r *vg.Rand) {
 			res = c20Wire(c.honestQuery(o, store, key))
 			q = &res.Response
 		}
-		lc := c20NewLC(c)
-		srv := &c20Server{query: res}
-		cl := c20Client(srv, lc, withKP)
-		view := &c20Wire(res).Response
-		run := c20Call(lc, func() error {
-			_, err := cl.ABCIQueryWithOptions(context.Background(), path, []byte(key), rpcclient.ABCIQueryOptions{Height: h})
-			return err
-		})
-		if len(srv.asked) > 0 {
-			t.Errorf("client asked the server without prove")
+		var fn KeyPathFunc
+		if withKP {
+			fn = c20KPFn(0)
 		}
-		// the proof runtime asked directly, per candidate root
-		prt := merkle.DefaultProofRuntime()
-		prt.RegisterOpDecoder(c20AbsentType, c20AbsentDecoder)
-		kp, kpErr := DefaultMerkleKeyPathFn()(path, view.Key)
-		var vtab, atab []string
-		for hh := int64(1); hh <= c.n; hh++ {
-			root := c.blocks[hh-1].AppHash
-			vv, va := false, false
-			func() {
-				defer func() { recover() }()
-				if view.ProofOps != nil && view.Value != nil && kpErr == nil {
-					vv = prt.VerifyValue(view.ProofOps, root, kp.String(), view.Value) == nil
+		c20RunQuery(t, cs, id, c, "query/"+kind, kind, path, key, h, res, fn, "default (url,url)", honest)
+	}
+}
+
+// one ABCIQueryWithOptions call of the real client against the scripted answer, and the case for it
+func c20RunQuery(t *testing.T, cs *vg.Cases, id int, c *c20Chain, label, kind, path, key string, h int64, res *ctypes.ResultABCIQuery,
+	fn KeyPathFunc, fnName string, honest bool) {
+	lc := c20NewLC(c)
+	srv := &c20Server{query: res}
+	cl := c20ClientKP(srv, lc, fn)
+	view := &c20Wire(res).Response
+	run := c20Call(lc, func() error {
+		_, err := cl.ABCIQueryWithOptions(context.Background(), path, []byte(key), rpcclient.ABCIQueryOptions{Height: h})
+		return err
+	})
+	if len(srv.asked) > 0 {
+		t.Errorf("client asked the server without prove")
+	}
+	// the proof runtime asked directly, per candidate root
+	prt := merkle.DefaultProofRuntime()
+	prt.RegisterOpDecoder(c20AbsentType, c20AbsentDecoder)
+	kpfn := fn
+	if kpfn == nil {
+		kpfn = c20KPFn(0)
+	}
+	kp, kpErr := kpfn(path, view.Key)
+	var vtab, atab []string
+	for hh := int64(1); hh <= c.n; hh++ {
+		root := c.blocks[hh-1].AppHash
+		vv, va := false, false
+		func() {
+			defer func() { recover() }()
+			if view.ProofOps != nil && view.Value != nil && kpErr == nil {
+				vv = prt.VerifyValue(view.ProofOps, root, kp.String(), view.Value) == nil
+			}
+			if view.ProofOps != nil && view.Value == nil {
+				va = prt.VerifyAbsence(view.ProofOps, root, string(view.Key)) == nil
+			}
+		}()
+		vtab = append(vtab, vg.Tup(vg.Hx(root), vg.B(vv)))
+		atab = append(atab, vg.Tup(vg.Hx(root), vg.B(va)))
+	}
+	nops := 0
+	if view.ProofOps != nil {
+		nops = len(view.ProofOps.Ops)
+	}
+	// ground truth straight from the generated application state: no proof, no key path involved
+	stateVal, stateDescr := "None", "unknown"
+	if m := c20StoreRE.FindStringSubmatch(path); len(m) == 2 && view.Height >= 0 && view.Height <= c.n {
+		if st, ok := c.apps[view.Height].stores[m[1]]; ok {
+			v, present := st[string(view.Key)]
+			stateVal = vg.Opt(true, vg.Opt(present, vg.Hx(v)))
+			stateDescr = fmt.Sprintf("absent")
+			if present {
+				stateDescr = fmt.Sprintf("%x", v)
+			}
+		}
+	}
+	cs.Add(id, label, kind != "honest",
+		vg.App("CQuery", lc.term(false), vg.B(fn != nil), vg.Z(int64(view.Code)), vg.Hx(view.Key), vg.Z(int64(nops)), vg.Z(view.Height),
+			vg.Opt(view.Value != nil, vg.Hx(view.Value)), vg.B(kpErr == nil), vg.L(vtab), vg.L(atab), stateVal,
+			vg.B(run.relayed), vg.L(run.calls), vg.B(honest)),
+		fmt.Sprintf("chain#%d(n=%d) ABCIQuery(path %q, key %q at height %d, KeyPathFn=%s), falsification: %s; answer: code=%d key=%q value=%x height=%d ops=%d (op keys %q); the application state at height %d holds for that store and key: %s; relayed=%v err=%q",
+			c.idx, c.n, path, key, h, map[bool]string{true: fnName, false: "none"}[fn != nil], kind, view.Code, view.Key, view.Value, view.Height, nops, c20OpKeys(view),
+			view.Height, stateDescr, run.relayed, run.err))
+}
+
+func c20OpKeys(q *abci.ResponseQuery) (out []string) {
+	if q.ProofOps != nil {
+		for _, op := range q.ProofOps.Ops {
+			out = append(out, string(op.Key))
+		}
+	}
+	return
+}
+
+// keys and store names that key-path encodings treat specially: honest answers must be relayed, and an
+// answer that keeps the asked key but carries the value and genuine proof of a sibling key (or of the same
+// key in a sibling store) must be refused; under the default URL key path and under hex key paths
+func c20SpecialQueryCases(t *testing.T, cs *vg.Cases, c *c20Chain, r *vg.Rand) {
+	type sq struct {
+		kind, store, key string // asked
+		fromStore, from  string // where value and proof come from
+		mode             int
+	}
+	var qs []sq
+	perm := r.Perm(len(c20SpecialKeys))
+	for i, j := range perm { // honest: every special key once per chain, the modes in turn
+		mode := 0
+		if i%4 == 2 {
+			mode = 1
+		} else if i%4 == 3 {
+			mode = 2
+		}
+		if i < vg.Scale(14, len(c20SpecialKeys)) || strings.HasPrefix(c20SpecialKeys[j], "x:") || strings.Contains(c20SpecialKeys[j], "+") {
+			qs = append(qs, sq{"honest", c20SpecialStore, c20SpecialKeys[j], c20SpecialStore, c20SpecialKeys[j], mode})
+		}
+	}
+	for i, st := range c20SiblingStores {
+		qs = append(qs, sq{"honest", st, []string{"k", "a+b", "a b"}[(i+c.idx)%3], st, []string{"k", "a+b", "a b"}[(i+c.idx)%3], []int{0, 0, 2}[(i+c.idx/3)%3]})
+	}
+	for i, p := range c20SiblingKeys {
+		qs = append(qs, sq{"sibling-key-lie", c20SpecialStore, p[0], c20SpecialStore, p[1], 0})
+		if (i+c.idx)%3 == 0 {
+			qs = append(qs, sq{"sibling-key-lie", c20SpecialStore, p[0], c20SpecialStore, p[1], 1 + (i/3)%2})
+		}
+	}
+	for i, p := range c20SiblingStorePairs {
+		qs = append(qs, sq{"sibling-store-lie", p[0], "k", p[1], "k", []int{0, 0, 2}[(i+c.idx)%3]})
+	}
+	names := []string{"default (url,url)", "custom (store url, key hex)", "custom (hex,hex)"}
+	for k, q := range qs {
+		id := cs.NextID()
+		if !cs.Want(id) {
+			continue
+		}
+		rr := r.Fork(uint64(8000 + k))
+		h := 1 + rr.Int63n(c.n-1)
+		res := c20Wire(c.honestQuery(h, q.fromStore, q.from))
+		res.Response.Key = []byte(q.key) // the answer names the key that was asked for
+		kind := q.kind
+		if kind != "honest" {
+			kind = fmt.Sprintf("%s (value and genuine proof of key %q in store %q)", q.kind, q.from, q.fromStore)
+		}
+		c20RunQuery(t, cs, id, c, fmt.Sprintf("query-special/%s/mode%d", q.kind, q.mode), kind, "/store/"+q.store+"/key", q.key, h, res,
+			c20KPFn(q.mode), names[q.mode], q.kind == "honest")
+	}
+}
+
+// ---------------------------------------------------------------- key paths printed and parsed by crypto/merkle
+
+func c20KeysTerm(keys [][]byte, err error) string {
+	if err != nil {
+		return "None"
+	}
+	return vg.Opt(true, vg.HxL(keys))
+}
+
+func c20KeyPathCases(t *testing.T, cs *vg.Cases, chain int, r *vg.Rand) {
+	type pk struct {
+		name []byte
+		hex  bool
+	}
+	var paths [][]pk
+	if chain == 0 { // directed: every special key and store name alone under both encodings, and as (store, key)
+		paths = append(paths, nil)
+		for _, k := range append(append([]string{""}, c20SpecialKeys...), c20SiblingStores...) {
+			paths = append(paths, []pk{{[]byte(k), false}}, []pk{{[]byte(k), true}})
+		}
+		for i, k := range c20SpecialKeys {
+			st := c20SiblingStores[i%len(c20SiblingStores)]
+			paths = append(paths, []pk{{[]byte(st), false}, {[]byte(k), false}}, []pk{{[]byte(st), i%2 == 0}, {[]byte(k), true}})
+		}
+	}
+	alphabet := []byte("+ %/?#&=:x;,@$~-_.!*'()aZfF09\"<>[]{}|^`\\\x00\n\x7f\x80\xc3\xa9\xff")
+	for i := 0; i < vg.Scale(25, 60); i++ {
+		var p []pk
+		for n := 1 + r.Intn(4); n > 0; n-- {
+			var name []byte
+			if r.Chance(15) {
+				name = []byte("x:")
+			}
+			for l := r.Intn(7); l > 0; l-- {
+				if r.Chance(80) {
+					name = append(name, alphabet[r.Intn(len(alphabet))])
+				} else {
+					name = append(name, byte(r.Intn(256)))
 				}
-				if view.ProofOps != nil && view.Value == nil {
-					va = prt.VerifyAbsence(view.ProofOps, root, string(view.Key)) == nil
-				}
-			}()
-			vtab = append(vtab, vg.Tup(vg.Hx(root), vg.B(vv)))
-			atab = append(atab, vg.Tup(vg.Hx(root), vg.B(va)))
+			}
+			p = append(p, pk{name, r.Chance(35)})
 		}
-		nops := 0
-		if view.ProofOps != nil {
-			nops = len(view.ProofOps.Ops)
+		paths = append(paths, p)
+	}
+	var printed []string
+	for _, p := range paths {
+		id := cs.NextID()
+		kp := merkle.KeyPath{}
+		var ks, human []string
+		for _, k := range p {
+			enc := merkle.KeyEncodingURL
+			if k.hex {
+				enc = merkle.KeyEncodingHex
+			}
+			kp = kp.AppendKey(k.name, enc)
+			ks = append(ks, vg.Tup(vg.Hx(k.name), vg.B(k.hex)))
+			human = append(human, fmt.Sprintf("%q(%s)", k.name, map[bool]string{true: "hex", false: "url"}[k.hex]))
 		}
-		cs.Add(id, "query/"+kind, kind != "honest",
-			vg.App("CQuery", lc.term(false), vg.B(withKP), vg.Z(int64(view.Code)), vg.Hx(view.Key), vg.Z(int64(nops)), vg.Z(view.Height),
-				vg.Opt(view.Value != nil, vg.Hx(view.Value)), vg.B(kpErr == nil), vg.L(vtab), vg.L(atab),
-				vg.B(run.relayed), vg.L(run.calls), vg.B(honest)),
-			fmt.Sprintf("chain#%d(n=%d) ABCIQuery(path %q, key %q at height %d, KeyPathFn=%v), falsification: %s; answer: code=%d key=%q value=%x height=%d ops=%d; relayed=%v err=%q",
-				c.idx, c.n, path, key, h, withKP, kind, view.Code, view.Key, view.Value, view.Height, nops, run.relayed, run.err))
+		str := kp.String()
+		printed = append(printed, str)
+		if !cs.Want(id) {
+			continue
+		}
+		keys, err := merkle.KeyPathToKeys(str)
+		cs.Add(id, "keypath/roundtrip", len(p) > 0,
+			vg.App("CKeyPath", vg.L(ks), vg.Hx([]byte(str)), c20KeysTerm(keys, err)),
+			fmt.Sprintf("KeyPath%v.String() = %q; KeyPathToKeys of that = %q err=%v", human, str, keys, err))
+	}
+	// arbitrary strings: the printed paths with one or two characters changed, and directed malformed ones
+	strs := []string{"", "/", "//", "x:00", "a/b", "/%", "/%4", "/%4g", "/%41%", "/a+b", "/a%2Bb", "/a%2bb", "/a%20b", "/x:", "/x:0", "/x:0g", "/x:abCD",
+		"/x:AB/x:", "/X:00", "/x%3A00", "/x%3a00", "/ x:00", "/a/x:00/%2F", "/%00%ff", "/\xc3\xa9", "/+", "/%2B", "/a//b/", "/x:%41", "/é/x:C3A9"}
+	if chain != 0 {
+		strs = nil
+	}
+	subst := []byte("+%/x: aF0g")
+	for i := 0; i < vg.Scale(20, 50) && len(printed) > 0; i++ {
+		b := []byte(printed[r.Intn(len(printed))])
+		for m := 1 + r.Intn(2); m > 0 && len(b) > 0; m-- {
+			switch j := r.Intn(len(b)); r.Intn(4) {
+			case 0:
+				b[j] = subst[r.Intn(len(subst))]
+			case 1:
+				b = append(b[:j:j], b[j+1:]...)
+			case 2:
+				b = append(b[:j:j], append([]byte{subst[r.Intn(len(subst))]}, b[j:]...)...)
+			case 3:
+				b = []byte(strings.ToLower(string(b)))
+			}
+		}
+		strs = append(strs, string(b))
+	}
+	for _, str := range strs {
+		id := cs.NextID()
+		if !cs.Want(id) {
+			continue
+		}
+		keys, err := merkle.KeyPathToKeys(str)
+		cs.Add(id, "keypath/decode", true, vg.App("CKeyDecode", vg.Hx([]byte(str)), c20KeysTerm(keys, err)),
+			fmt.Sprintf("KeyPathToKeys(%q) = %q err=%v", str, keys, err))
 	}
 }
 
@@ -1636,6 +1882,8 @@ func TestVerifC20Client(t *testing.T) {
 		c20TxCases(t, cs, c, r.Fork(6))
 		c20SearchCases(t, cs, c, r.Fork(11))
 		c20QueryCases(t, cs, c, r.Fork(7))
+		c20SpecialQueryCases(t, cs, c, r.Fork(12))
+		c20KeyPathCases(t, cs, k, r.Fork(13))
 		c20ParamsCases(t, cs, c, r.Fork(8))
 		c20ResultsCases(t, cs, c, r.Fork(9))
 		c20ServedCases(t, cs, c, r.Fork(10))
